@@ -51,7 +51,7 @@ META = {
     "C08": {
         "sections": ["Arith.Abs", "Arith.Max", "Arith.Compare"],
         "rule": "regions of 1..3 (thorough 4) segments with lengths 0..3 and gaps 0..2 plus two 5-segment regions, each on both strands (and bare segments), x all five modifier forms with offsets in [-len-3,len+3] (two-offset forms on a step-2 grid); Modifier.Apply on all (h,t) in [0,6]^2 incl. the mirror law; modifier print/re-parse; EVERY string of <=5 (thorough 6) symbols over {^,$,..,.,+,-,0,1,7} through AsModifier and the printed form of every modifier over an 18-value offset grid up to the edges of int; 8 locator specifiers x 7 modifiers on a 5-feature table. Oracle: inside bounds the resized region denotes spliced[lo:hi] (positions and residues through Locate); outside bounds the first/last segment is extended outward.",
-        "assumptions": ["theorem C08_resize_slice covers every nested region and modifier with bounds inside the region (rwf: non-empty Regions values, coordinates within +-2^62; sums of lengths as unbounded Z); theorem C08_modifier_print_parse covers Modifier.String then AsModifier for int64 offsets; offsets outside the region and locators are decided by exhaustive correspondence + oracle",
+        "assumptions": ["theorem C08_resize_slice covers every nested region and modifier with bounds inside the region (rwf: non-empty Regions values, coordinates within +-2^62; sums of lengths as unbounded Z); theorem C08_modifier_print_parse covers Modifier.String then AsModifier for int64 offsets; AsLocator is modelled and tied (locate_string), its composition and precedence are theorems; offsets outside the region are decided by exhaustive correspondence + oracle",
                         "regexp selectors inside locators are exercised with literal keys/values only"],
     },
     "C09": {
